@@ -17,7 +17,7 @@ for pid in props:
         "evidence_file": "/verif/evidence/%s.json" % pid,
         "replay_cmd_template": "./vx replay {path}",
         "engine": "verus",
-        "level_claimed": {"category": "proof", "text": e["text"], "design_ref": e.get("design_ref", "DESIGN.md section 3 " + pid)},
+        "level_claimed": {"category": e.get("category", "proof"), "text": e["text"], "design_ref": e.get("design_ref", "DESIGN.md section 3 " + pid)},
         "level_note": e["note"],
         "technique": e.get("technique", "contract-based deductive verification (Verus) of functions extracted mechanically from /repo on every run"),
     })
